@@ -81,7 +81,8 @@ def run(chk, repo, tier):
             lo, hi, holes, others = interval_of_facts(facts, L)
             lo = max(lo, 0)
             if p.outcome == "return":
-                accept.append((lo, hi))
+                from ..ranges import cut_holes
+                accept.extend(cut_holes(lo, hi, holes))
                 for ev in p.events:
                     if ev["kind"] == "decode" and not len_gate(ev["facts"], ev["arg"], 96):
                         prob.append(f"signature_to_G2 at {ev['where']} not dominated by the 96-byte gate")
